@@ -19,6 +19,7 @@
 #   (G9) self.m(node) for a translated LMeasure method m taking the columns of a node's tree and that node
 #   (G10) np.sum(a) of a 1-d float array                               Py.LG.sumK a
 #   (G11) m[1:] / m[:-1] of a 2-d float array                          m.drop 1 / m.dropLast
+#   (G13) n.branch()[k] for a node handle n and an int literal k      the tree node at entry k of the translated `node_branch` of n
 #   (G12) x ** k for a float x and an int k                          Py.LG.powInt x k  (repeated `*`; k < 0 needs a division: raises here)
 # TRUSTED GLUE is listed next to each spec and in design_notes/session4/lmgeo.md.
 LEAN_KEYWORDS.add("bif")                      # `bif c then a else b` is a Lean token: the python name `bif` becomes `bif_`
@@ -158,6 +159,24 @@ def _lg_expr(tr, e, want):
                     n = tr.bindname()
                     return s0 + s1 + [f"Py.bind (Py.LG.powInt {c} {k}) fun {n} =>"], n, t
             return None
+        return None
+    # (G13) `n.branch()[k]` for a node handle n and an int literal k: `Tree.Node.branch` is the TRANSLATED `node_branch` (the list of the branch's node
+    #       ids = row indices); indexing the `Tree.Branch` (Path.__getitem__: range check, negative wrap, Path.Node reading the tree's column at
+    #       `idx[k]`) gives the TREE node whose handle is that entry of the list
+    if (isinstance(e, ast.Subscript) and not isinstance(e.slice, ast.Slice) and isinstance(e.value, ast.Call) and isinstance(e.value.func, ast.Attribute) and e.value.func.attr == "branch"
+            and not e.value.args and not e.value.keywords and "node_branch" in by_lean_global):
+        try:
+            k = ast.literal_eval(e.slice)
+        except (ValueError, SyntaxError):
+            k = None
+        if isinstance(k, int) and not isinstance(k, bool):
+            r = _lg_node(tr, e.value.func.value)
+            if r is not None:
+                s0, c, T = r
+                s1, br, tb = _lg_call(tr, by_lean_global["node_branch"], T, c, [], ast.unparse(e.value))
+                if tb == ("List", "Int"):
+                    n = tr.bindname()
+                    return s0 + s1 + [f"Py.bind (Py.idx {br} ({k} : Int)) fun {n} =>"], n, f"Node@{T}"
         return None
     # (G11) m[1:], m[:-1]
     if isinstance(e, ast.Subscript) and isinstance(e.slice, ast.Slice) and e.slice.step is None:
@@ -323,3 +342,15 @@ spec(lean="lm_taper_1", module="AlgoLmGeo", file=_LM, cls="LMeasure", func="tape
 spec(lean="lm_taper_2", module="AlgoLmGeo", file=_LM, cls="LMeasure", func="taper_2", params=["rs", "branch"],
      num_tparams=["K"], fparams=[_LG_F], vars={"rs": "List K", "branch": "List Int", "da": "K", "db": "K"}, ret="K",
      subst={k: _LGBR[k] for k in ("branch[0]", "branch[-1]")}, tree_cols={"branch.attach": {"r": "rs"}})
+
+# --- remote bifurcation vectors: `children[k].branch()[-1]` = the last node of the branch through the child (the generated `Tree.Node.branch`)
+spec(lean="lm_bif_vector_remote", module="AlgoLmGeo", file=_LM, cls="LMeasure", func="_bif_vector_remote", params=["ids", "pids", "xs", "ys", "zs", "bif"],
+     num_tparams=["K"], fuel=True,
+     vars=dict(_LGXV, ids="List Int", pids="List Int", bif="Node@bif.attach", children="List Node@bif.attach", v1="List K", v2="List K"),
+     ret="(List K) × (List K)", tree_cols=_LGBX)
+LG_SELF_METHODS["self._bif_vector_remote"] = "lm_bif_vector_remote"
+spec(lean="lm_bif_ampl_remote", module="AlgoLmGeo", file=_LM, cls="LMeasure", func="bif_ampl_remote", params=["ids", "pids", "xs", "ys", "zs", "bif"],
+     num_tparams=["K"], fparams=_LG_ANG, fuel=True,
+     vars=dict(_LGXV, ids="List Int", pids="List Int", bif="Node@bif.attach", v1="List K", v2="List K"),
+     ret="K", tree_cols=_LGBX)
+LG_FCALLS["lm_bif_ampl_remote"] = {"angle": ("angle", "K", True), "np.degrees": ("degrees", "K", False)}
